@@ -16,6 +16,7 @@ ALL_SETS = [frozenset(c) for n in range(0, 8) for c in combinations(range(7), n)
 
 class C13(Prop):
     id = "C13"
+    tour_every = 5
     level = "exploration"
     technique = "real pretty_next_run driven under a virtual clock and switched host zone; independent earliest-occurrence oracle over all 128 day sets"
     rule = ("case = (zone, virtual now: 7 consecutive days incl. both sides of local midnight, plus year ends, month ends and leap days); under it all 128 day sets x a start-minute grid {now-1, now, now+1, 00:00, 23:59, now-60, "
